@@ -31,7 +31,11 @@ RULE = (
     'a newly completed output per the graph model is pooled with that '
     'prerequisite satisfied, and nothing else was spawned; prerequisites the '
     'task does not have change nothing; a target whose prerequisites were all '
-    'set runs after the resume. Distinct = distinct (program, command list); '
+    'set runs after the resume. In a third of the cases the workflow runs '
+    'normally instead and outputs (failed, succeeded, started, default) are '
+    'set on tasks that have a live job, some with execution retries left: '
+    'at the end of that iteration the requested and implied outputs are '
+    'recorded. Distinct = distinct (program, command list); '
     'non-trivial = a command completed an output that has at least one child, '
     'or satisfied a prerequisite of an unspawned instance.')
 ASSUMPTIONS = ['commands are checked at the end of the main-loop iteration '
@@ -41,7 +45,7 @@ TIERS = {
     'quick': {'n': 600, 'budget_s': 420, 'chunk': 8},
     'thorough': {'n': 12000, 'budget_s': 3000, 'chunk': 20},
 }
-EXPECTED_PROBES = ['set_output_with_children', 'set_on_unspawned',
+EXPECTED_PROBES = ['set_on_active_task', 'set_failed_on_task_with_retries', 'set_output_with_children', 'set_on_unspawned',
                    'set_default_outputs', 'set_prereq_all', 'set_prereq_some',
                    'set_prereq_foreign']
 KNOBS = {'span': (2, 4), 'n_tasks': (2, 5), 'p_custom': 0.5,
@@ -92,6 +96,36 @@ def gen_cmds(rng, prog, model):
     return cmds
 
 
+def gen_live_cmds(rng):
+    """Live mode: outputs set on tasks that have a job at that moment."""
+    cmds = []
+    it = rng.randint(2, 12)
+    for k in range(rng.randint(1, 3)):
+        r = rng.random()
+        outs = (['failed'] if r < 0.35 else ['succeeded'] if r < 0.7
+                else ['started'] if r < 0.8 else None)
+        cmds.append({'iter': it, 'slot': rng.randint(0, 1), 'name': 'set',
+                     'pick': rng.random(),
+                     'kwargs': {'flow': [], 'outputs': outs}})
+        it += rng.randint(1, 8)
+    return cmds
+
+
+class LiveDriver(CommandDriver):
+    def resolve(self, h, c):
+        if 'pick' not in c:
+            return c['kwargs']
+        cand = sorted(i.identity for i in h.schd.pool.get_tasks()
+                      if i.state.status in ('submitted', 'running'))
+        if not cand:
+            cand = sorted(i.identity for i in h.schd.pool.get_tasks())
+        if not cand:
+            return None
+        kw = dict(c['kwargs'])
+        kw['tasks'] = [cand[int(c['pick'] * len(cand)) % len(cand)]]
+        return kw
+
+
 def db_outputs(run_dir, cycle, name):
     path = os.path.join(run_dir, '.service', 'db')
     con = sqlite3.connect(f'file:{path}?mode=ro', uri=True)
@@ -123,7 +157,8 @@ def pool_view(schd):
 
 
 class SetWatch(Monitor):
-    def __init__(self, cmds):
+    def __init__(self, cmds, live=False):
+        self.live = live
         self.cmds = cmds
         self.n_seen = 0
         self.before = None
@@ -152,7 +187,48 @@ class SetWatch(Monitor):
         rec = sets[0]
         if isinstance(rec[5], (list, tuple)) and rec[5] and rec[5][0] is False:
             return      # rejected by validation
-        self.check(h, rec)
+        if self.live:
+            self.check_live(h, rec)
+        else:
+            self.check(h, rec)
+
+    def check_live(self, h, rec):
+        """Workflow running: only what no concurrent event can undo."""
+        res = self.res
+        prog = res.prog
+        kw = rec[4]
+        ident = kw['tasks'][0]
+        cyc, name = ident.split('/')
+        if name not in prog.tasks:
+            return
+        task = prog.tasks[name]
+        b = self.before.get(ident)
+        if b is None:
+            return
+        res.sim.probe('set_on_active_task')
+        outs = kw.get('outputs')
+        ref = res.model.referenced_outputs(name)
+        if not outs:
+            req = {c for c in task.customs if c in ref and not task.opt.get(c)}
+            want = req | {'submitted', 'started', 'succeeded'}
+        else:
+            want = set(outs)
+            for o in outs:
+                want |= set(IMPLIED.get(o, []))
+        pooled = {i.identity: i for i in h.schd.pool.get_tasks()}
+        now = pooled.get(ident)
+        recorded = db_outputs(h.run_dir, cyc, name)
+        if now is not None:
+            recorded |= set(now.state.outputs.get_completed_outputs()) | {
+                lbl for lbl, _m, done in now.state.outputs if done}
+        if 'failed' in want and task.exec_retries:
+            res.sim.probe('set_failed_on_task_with_retries')
+        if not want <= recorded:
+            res.violate('set_outputs_not_all_completed', {
+                'task': ident, 'requested': outs, 'expected': sorted(want),
+                'recorded': sorted(recorded),
+                'status_before': b['status'],
+                'status_after': now.state.status if now is not None else None})
 
     def check(self, h, rec):
         res = self.res
@@ -290,6 +366,9 @@ def run(params):
     seed = params['seed']
     rng = random.Random(derive_seed(seed, 'c29'))
     gkw = swarm_gkw(rng)
+    live = params.get('live', seed % 3 == 0)
+    if live:
+        return run_live(params, rng, gkw)
     case = Case(seed, knobs=KNOBS, rates=RATES_NONE, policy='complete',
                 gkw=gkw, opts={'paused_start': True})
     case.choices = params.get('choices')
@@ -331,3 +410,25 @@ def run(params):
             'sample': sample_of(res, {
                 'commands': [(c.get('iter'), c['name'], str(c['kwargs']))
                              for c in cmds]})}
+
+
+def run_live(params, rng, gkw):
+    seed = params['seed']
+    kn = dict(KNOBS)
+    kn['p_retries'] = 0.6
+    case = Case(seed, knobs=kn, rates=RATES_NONE, policy='complete',
+                gkw=gkw, opts={})
+    case.choices = params.get('choices')
+    case.build()
+    cmds = params.get('cmds') or gen_live_cmds(rng)
+    sw = SetWatch(cmds, live=True)
+    res = run_case(case, monitors=[LiveDriver([dict(c) for c in cmds]), sw])
+    if res.error:
+        return {'error': res.error, 'violations': [], 'stats': {}}
+    resolved = [(d[2], d[3], str(d[4])) for d in res.commands_done]
+    nontriv = None
+    if res.sim.probes.get('set_on_active_task'):
+        nontriv = [res.prog.render(), resolved]
+    return {'violations': viol_dicts(res, PID, {}),
+            'stats': base_stats(res, nontriv),
+            'sample': sample_of(res, {'commands': resolved, 'live': True})}
